@@ -3,6 +3,7 @@ package main
 // Calls: builtins, conversions, closures (inlined), callees by contract.
 
 import (
+	"strconv"
 	"fmt"
 	"go/ast"
 	"go/token"
@@ -718,6 +719,39 @@ func (c *FnCtx) callFunc(st *State, call *ast.CallExpr, fn *types.Func, recv *Va
 	lookup := func(name string) *Val { return bind[name] }
 	envPre := &SpecEnv{c: c, st: st, lookup: lookup, calleeKey: key}
 	envPre.old = envPre
+	// call-site assertions of the function under verification
+	if c.con != nil && len(c.con.AtCall) > 0 {
+		ord := c.siteOrd(call, key)
+		for i, ac := range c.con.AtCall {
+			if ac.Callee != shortKey(key) || ord == 0 || (ac.Ord != 0 && ac.Ord != ord) {
+				continue
+			}
+			base := c.specEnvAt(st, call.Pos())
+			inner := base.lookup
+			env := *base
+			env.lookup = func(n string) *Val {
+				if strings.HasPrefix(n, "arg") {
+					if k, err := strconv.Atoi(n[3:]); err == nil && k < len(args) {
+						return args[k]
+					}
+				}
+				return inner(n)
+			}
+			if base.old == base {
+				env.old = &env
+			}
+			t := c.specBool(&env, ac.Cl.Expr)
+			if ac.Assume {
+				c.assumeNote("environment assumption in " + c.key + " before the call of " + shortKey(key) + ": " + ac.Cl.Src)
+				st.assume(t)
+				continue
+			}
+			c.nObl["call"]++
+			nm := fmt.Sprintf("%s/at-call.%s#%d/%s", c.key, shortKey(key), ord, clauseID(ac.Cl, i))
+			c.addObl(&Obligation{Name: nm, Kind: "at-call", Descr: "call-site assertion before " + key, Pos: c.pos(call), Hyps: append([]string(nil), st.pc...), Goal: t, Clause: ac.Cl.Src})
+			st.assume(t)
+		}
+	}
 	// requires
 	for i, r := range con.Requires {
 		t := c.specBool(envPre, r.Expr)
@@ -751,6 +785,14 @@ func (c *FnCtx) callFunc(st *State, call *ast.CallExpr, fn *types.Func, recv *Va
 			}
 		}
 		c.havoc(st, ms, "interf")
+		// monitor invariants of the function under verification: facts about the lock-protected state that every
+		// critical section is assumed to re-establish before it unlocks
+		if c.con != nil {
+			for _, a := range c.con.AfterLock {
+				env := c.specEnvAt(st, call.Pos())
+				st.assume(c.specBool(env, a.Expr))
+			}
+		}
 	}
 	// modifies
 	if con.ModAll {
@@ -911,6 +953,26 @@ func (c *FnCtx) callOrd(call *ast.CallExpr) int {
 	}
 	c.callOrds[call] = len(c.callOrds) + 1
 	return c.callOrds[call]
+}
+
+// siteOrd is the 1-based source-order ordinal of a call among the calls of the same callee in the declaration under
+// verification (0 when the call is not part of that declaration, e.g. inside an inlined callee).
+func (c *FnCtx) siteOrd(call *ast.CallExpr, key string) int {
+	if c.siteOrds == nil {
+		c.siteOrds = map[*ast.CallExpr]int{}
+		cnt := map[string]int{}
+		ast.Inspect(c.fd, func(n ast.Node) bool {
+			if ce, ok := n.(*ast.CallExpr); ok {
+				if ci := c.calleeOf(ce); ci.fn != nil {
+					k := typesFuncKey(ci.fn)
+					cnt[k]++
+					c.siteOrds[ce] = cnt[k]
+				}
+			}
+			return true
+		})
+	}
+	return c.siteOrds[call]
 }
 
 func shortKey(k string) string {
